@@ -25,7 +25,7 @@ import copy
 import time
 import uuid
 from abc import ABC, abstractmethod
-from datetime import datetime
+from datetime import datetime, timezone
 from typing import Any, Callable, Iterable, List, Optional, Sequence, TypeVar, cast
 
 from semantiva.data_processors.data_processors import ParameterInfo, _NO_DEFAULT
@@ -816,7 +816,13 @@ class SemantivaOrchestrator(ABC):
         return end_iso, duration_ms, cpu_ms
 
     def _iso_now(self) -> str:
-        return datetime.now().isoformat(timespec="milliseconds") + "Z"
+        # The "Z" suffix denotes UTC: take the instant in UTC, not host local time.
+        return (
+            datetime.now(timezone.utc)
+            .replace(tzinfo=None)
+            .isoformat(timespec="milliseconds")
+            + "Z"
+        )
 
     def _resolve_processor_classes(
         self, canonical: dict[str, Any], resolved_spec: Sequence[dict[str, Any]]
